@@ -35,7 +35,7 @@ ASSUMPTIONS = [
 	"GLU and Softmax are not element-wise and are outside the statement",
 	"each activation module instance is used once (sequential models)",
 ]
-REQUIRED = {"pairs_checked": 200, "archs_with_maxpool": 5}
+REQUIRED = {"prior_override_calls": 10, "pairs_checked": 200, "archs_with_maxpool": 5}
 TECHNIQUE = ("runtime monitoring: completeness oracle (plain forward passes) "
 	"on every observed deep_lift_shap result over generated architectures; "
 	"warnings monitor")
@@ -116,6 +116,19 @@ def run_case(cls, params, rec):
 	desc = {"arch": dls.describe(spec), "A": A, "L": L, "n": n,
 		"n_shuffles": ns, "batch_size": params["batch_size"],
 		"target": target, "refs": params["refs"]}
+	if params.get("prior_override_call"):
+		# call history: an earlier call overriding the rules of the built-in
+		# layers must not influence later ordinary calls
+		def plain_handler(module, grad_input, grad_output):
+			return grad_input
+		ov = {t: plain_handler for t in dls.ACT_TYPES + (torch.nn.MaxPool1d,)}
+		other = dls.build(spec, params["wseed"] + 5, "float")
+		with warnings.catch_warnings():
+			warnings.simplefilter("ignore")
+			gen.call(deep_lift_shap, other, X, additional_nonlinear_ops=ov,
+				**{k_: v_ for k_, v_ in kw.items() if k_ !=
+				"return_references"})
+		rec.count("prior_override_calls")
 	with warnings.catch_warnings(record=True) as wlog:
 		warnings.simplefilter("always")
 		st, val = gen.call(deep_lift_shap, model, X, raw_outputs=True, **kw)
@@ -271,12 +284,14 @@ def gen_case(seed, k):
 	if L < 8 and refs == "dinuc":
 		refs = "shuffle"
 	return {"A": A, "L": L, "spec": spec, "wseed": r.randrange(10 ** 6),
-		"weights": "int" if (k % 7 == 3 or k % 8 == 5) else "float", "n": n,
+		"weights": "int" if (k % 7 == 3 or k % 8 == 5) else "big" if k % 7 == 5
+		else "float", "n": n,
 		"n_shuffles": ns, "batch_size": r.choice([1, 2, 3, n * ns,
 		n * ns + 1, 32]), "target": r.randrange(dls.n_targets(spec)),
 		"refs": refs, "near": r.random() < 0.4, "iseed": r.randrange(10 ** 6),
 		"refkind": r.choice(["onehot", "onehot", "onehot", "zeros",
 		"uniform", "soft", "onehotN"]),
+		"prior_override_call": k % 5 == 2,
 		"random_state": r.randrange(1000)}
 
 
